@@ -3,7 +3,10 @@ package main
 
 import (
 	"fmt"
+	gomath "math"
 	"strings"
+
+	"cosmossdk.io/math"
 
 	sdk "github.com/cosmos/cosmos-sdk/types"
 
@@ -180,11 +183,11 @@ func (r *Runner) doGendoc(bctx sdk.Context, ln *Line) {
 	for _, a := range g.Amts {
 		gs.DispatcherGenesis.DispatchedAmounts = append(gs.DispatcherGenesis.DispatchedAmounts, dispatchertypes.DispatchedAmountEntry{
 			SourceId: ccid(a.Sp, a.Sc), DestinationId: ccid(a.Dp, a.Dc), Denom: a.Denom,
-			AmountDispatched: dispatchertypes.AmountDispatched{Incoming: sdkInt(a.In), Outgoing: sdkInt(a.Out)}})
+			AmountDispatched: dispatchertypes.AmountDispatched{Incoming: statAmt(a.In), Outgoing: statAmt(a.Out)}})
 	}
 	for _, c := range g.Cnts {
 		gs.DispatcherGenesis.DispatchedCounts = append(gs.DispatcherGenesis.DispatchedCounts, dispatchertypes.DispatchCountEntry{
-			SourceId: ccid(c.Sp, c.Sc), DestinationId: ccid(c.Dp, c.Dc), Count: uint64(c.N)})
+			SourceId: ccid(c.Sp, c.Sc), DestinationId: ccid(c.Dp, c.Dc), Count: statCnt(c.N)})
 	}
 	x := map[string]any{}
 	var bz []byte
@@ -212,4 +215,20 @@ func (r *Runner) doGendoc(bctx sdk.Context, ln *Line) {
 		ln.Res.Text = iErr
 	}
 	ln.Obs.X = x
+}
+
+// statAmt / statCnt: the abstract value BIG (maxTLCInt) stands for the maximum of the stored type.
+func statAmt(v int64) math.Int {
+	if v == maxTLCInt {
+		m, _ := math.NewIntFromString("115792089237316195423570985008687907853269984665640564039457584007913129639935")
+		return m
+	}
+	return sdkInt(v)
+}
+
+func statCnt(v int64) uint64 {
+	if v == maxTLCInt {
+		return gomath.MaxUint64
+	}
+	return uint64(v)
 }
